@@ -244,7 +244,80 @@ def run_clash(ctx, i, rng):
       ctx.check(raised is not None, 'clash:not_rejected:' + kind, lambda: dict(case=desc))
 
 
+def run_reentrant(ctx, i, rng):
+  """Re-entrant compact methods (a subclass calling super().__call__, a method calling self recursively): auto-names keep
+  counting in creation order across the re-entrant calls, so every layer gets its own subtree."""
+  import jax
+  import jax.numpy as jnp
+  import flax.linen as nn
+  from flax.core import unfreeze
+  kind = ['super_chain', 'recursive'][i % 2]
+  d0 = rng.randint(1, 3)
+  with ctx.case('reentrant', i, dict(kind=kind, i=i), nontrivial=True):
+    expected = []   # (din, dout) in creation order
+    if kind == 'super_chain':
+      n_levels = rng.randint(2, 4)
+      levels = [([rng.randint(1, 3) for _ in range(rng.randint(0, 2))], [rng.randint(1, 3) for _ in range(rng.randint(0 if li else 1, 2))]) for li in range(n_levels)]
+      cls = None
+      for pre, post in levels:   # index 0 = base class
+        def make(parent, pre, post, has_super):
+          class L(parent):
+            @nn.compact
+            def __call__(self, x):
+              for w in pre:
+                x = nn.Dense(w)(x)
+              if has_super:
+                x = super(L, self).__call__(x)
+              for w in post:
+                x = nn.Dense(w)(x)
+              return x
+          return L
+        cls = make(cls if cls is not None else nn.Module, tuple(pre), tuple(post), cls is not None)
+      def walk(li, d):
+        pre, post = levels[li]
+        for w in pre:
+          expected.append((d, w)); d = w
+        if li > 0:
+          d = walk(li - 1, d)
+        for w in post:
+          expected.append((d, w)); d = w
+        return d
+      d_out = walk(n_levels - 1, d0)
+      m = cls()
+      desc = dict(levels=levels)
+    else:
+      depth = rng.randint(1, 3)
+      w = d0
+
+      class Rec(nn.Module):
+        @nn.compact
+        def __call__(self, x, depth=depth):
+          x = nn.Dense(w)(x)
+          if depth > 0:
+            x = self(x, depth - 1)
+          return nn.Dense(w)(x)
+
+      for _ in range(2 * (depth + 1)):
+        expected.append((w, w))
+      m = Rec()
+      d_out = w
+      desc = dict(depth=depth)
+    x = jnp.ones((2, d0))
+    y, v = m.init_with_output(jax.random.key(i), x)
+    ctx.op('init(re-entrant compact)')
+    got = {k: (tuple(np.shape(t['kernel'])), tuple(np.shape(t['bias']))) for k, t in unfreeze(v)['params'].items()}
+    want = {'Dense_%d' % k: ((a, b), (b,)) for k, (a, b) in enumerate(expected)}
+    ctx.check(got == want, 'tree:reentrant_compact_names', lambda: dict(case=desc, want=want, got=got))
+    if got == want:
+      ctx.check(exact(m.apply(v, x), y) and np.shape(y) == (2, d_out), 'init_apply_agree:output', lambda: dict(case=desc))
+      # distinct layers have distinct initial kernels (no silent weight sharing)
+      ks = [np.asarray(t['kernel']).tobytes() for t in unfreeze(v)['params'].values() if np.asarray(t['kernel']).size > 1]
+      ctx.check(len(set(ks)) == len(ks), 'tree:reentrant_layers_share_weights', lambda: dict(case=desc))
+
+
 def run(ctx):
+  for i in ctx.indices(24 if ctx.tier == 'quick' else 200, 'reentrant'):
+    run_reentrant(ctx, i, ctx.rng('reentrant', i))
   rlog = RngLog(ctx)
   n = 280 if ctx.tier == 'quick' else 4500
   for i in ctx.indices(n, 'case'):
